@@ -99,6 +99,12 @@ CLAIMS = {
         text='Every explicit raise of a non-assembler exception and every struct/int() call fed with user data reachable from assemble() is followed along all call chains; each chain must cross a handler that converts it into AssemblerError(message, Line). '
              'Internal-invariant raises are discharged by class-flow / dispatch exhaustiveness; a lookup dominated by the matched rule\'s own predicates is discharged through the lifted relation. Every AssemblerError carries a Line; every item the parser or a pass builds carries the line of its source; Lines are created per physical line with the reading file\'s path and a 1-based number.',
         note='Not decided: exceptions Python raises implicitly on malformed arity/syntax (listed as escape candidates); duplicate labels are never refused. Trusted: CPython ast, resolution rules of bbverif/callgraph.py.'),
+    'C16': dict(
+        category='other', design='DESIGN.md §4 C16',
+        technique='purity / determinism effect analysis over everything reachable from assemble() in a repository-specific call graph; positive fixture keeps zero-instance rules alive',
+        text='For the ~160 functions reachable from assemble(): no writes to module-level state at call time (stores, mutating methods, aliases, ChainMap first position), no mutable defaults / memo decorators / function attributes, no iteration or materialisation of set-kinded values, '
+             'no ambient inputs (time, random, id, hash, environment, unsorted listings; cwd only on the source-string branch), eval with pinned builtins. These are exactly the mechanisms by which a result could depend on earlier calls, call order or the hash seed; absence is a property of the code shape, for all interleavings.',
+        note='Trusted: CPython ast; call resolution of bbverif/callgraph.py; determinism of CPython and struct. A fixture with one instance of every rule must fire on each run, otherwise the run ends with ANALYSIS-ERROR.'),
 }
 
 NOT_YET = 'check not built yet (framework under construction)'
